@@ -7,6 +7,9 @@ import ModVerif.Spec.ZipSpec
 import ModVerif.Proofs.ZipCreate
 import ModVerif.Proofs.ZipNameOK
 import ModVerif.Proofs.ZipSubmodule
+import ModVerif.Proofs.ZipACreate
+import ModVerif.Proofs.ZipAUnzip
+import ModVerif.Proofs.ZipAWitness
 namespace ModVerif.Props.C05
 open ModVerif ModVerif.PathClean ModVerif.Zip ModVerif.ZipSpec ModVerif.Proofs.Zip
 
@@ -113,5 +116,101 @@ example : (checkFilesV exEnv exFiles).err = none ∧ HonestFiles exFiles := by
   intro f hf _
   simp [exFiles] at hf
   rcases hf with rfl | rfl | rfl | rfl | rfl | rfl <;> decide +kernel
+
+
+/-! ### the produced archive passes the zip check and extracts to exactly the valid files -/
+
+/-- Whenever creating a module zip from a list of files succeeds, the archive passes the zip check with
+    no invalid entries and no size error (`zipSize` = size of the archive file, within the limit), and
+    the check's valid list is the list of entry names. -/
+theorem create_checkZip (E : Env) (mpath mvers : Bytes) (files : List FileInfo) (es : List Entry) (zipSize : Nat)
+    (h : create E mpath mvers files = .ok es) (hz : zipSize ≤ MaxZipFile) :
+    ∃ cf, checkZip E mpath mvers zipSize es = .ok cf ∧ cf.invalid = [] ∧ cf.sizeError = false ∧
+      cf.valid = es.map (·.name) ∧ cf.err = none :=
+  Proofs.ZipA.create_checkZip E mpath mvers files es zipSize h hz
+
+/-- … and it extracts without error into a missing or empty target directory; the effects are the
+    creation of the target and then, for every entry in order, `MkdirAll(Dir(dst))` and the exclusive
+    creation of `dst = Join(dir, path)` with the entry's complete content; the created files are these
+    destinations, pairwise distinct — with `create_entries`: exactly the files reported as valid by the
+    file check, byte for byte, and nothing else.  Hypotheses as for the C12 theorem `unzip_ok_iff_partial`
+    it instantiates: `CheckFilePath` rejects empty, `.` and `..` elements, and the target directory string
+    is empty, clean, or written without `..` (for `dir = x/y/../..` extraction of a file `x` fails on the
+    real implementation, too). -/
+theorem create_unzip (E : Env) (hE : CfpSound E.cfp) (dir : Bytes)
+    (hdir : dir = [] ∨ pathClean dir = dir ∨ ([46, 46] : Bytes) ∉ splitOn 47 dir) (t : Target)
+    (ht : t = .missing ∨ t = .emptyDir) (mpath mvers : Bytes) (files : List FileInfo) (es : List Entry)
+    (zipSize : Nat) (h : create E mpath mvers files = .ok es) (hz : zipSize ≤ MaxZipFile) :
+    (unzip E dir t mpath mvers zipSize es).err = none ∧
+    (unzip E dir t mpath mvers zipSize es).effects =
+      .mkdirAll dir :: es.flatMap (fun e =>
+        [.mkdirAll (pathDir (dstOf dir (zipPrefix mpath mvers) e)),
+         .createExcl (dstOf dir (zipPrefix mpath mvers) e) (some e.content)]) ∧
+    createdFiles (unzip E dir t mpath mvers zipSize es).effects = es.map (dstOf dir (zipPrefix mpath mvers)) ∧
+    (es.map (dstOf dir (zipPrefix mpath mvers))).Nodup :=
+  Proofs.ZipA.create_unzip E hE dir hdir t ht mpath mvers files es zipSize h hz
+
+/-- **Known finding (entry names longer than 65535 bytes).**  For the module `example.com/m@v1.0.0` and
+    the single regular file whose path is 65515 × `a` (content `x`, honest size): the module is accepted,
+    the file check reports no error — and creation fails, because the entry name
+    `example.com/m@v1.0.0/aaa…` is 65536 bytes long and archive/zip refuses it.  So `create_ok_iff_partial`
+    without its hypothesis on the name length is false.  (Structured proof, `create_nameTooLong`: nothing
+    is evaluated over the 65 kB path.) -/
+theorem C05_violated_long_name :
+    exEnv.modOK (B "example.com/m") (B "v1.0.0") = true ∧
+    HonestFiles [⟨List.replicate 65515 97, .regular, 1, [120], false⟩] ∧
+    (checkFilesV exEnv [⟨List.replicate 65515 97, .regular, 1, [120], false⟩]).err = none ∧
+    create exEnv (B "example.com/m") (B "v1.0.0") [⟨List.replicate 65515 97, .regular, 1, [120], false⟩] =
+      .error .nameTooLong := by
+  have hns : (47 : UInt8) ∉ List.replicate 65515 (97 : UInt8) := by
+    intro h; have := (List.mem_replicate.mp h).2; exact absurd this (by decide)
+  have hlen : 20 < (List.replicate 65515 (97 : UInt8)).length := by rw [List.length_replicate]; decide
+  have hv : isPrefixOfB vendorSlash (List.replicate 65515 (97 : UInt8)) = false := by
+    show isPrefixOfB vendorSlash (List.replicate (65514 + 1) (97 : UInt8)) = false
+    rw [List.replicate_succ]; rfl
+  have hcfp : exEnv.cfp (List.replicate 65515 (97 : UInt8)) = true := by
+    show (!(List.replicate (65514 + 1) (97 : UInt8)).isEmpty) = true
+    rw [List.replicate_succ]; rfl
+  have h1 : (B "example.com/m").length = 13 := by decide +kernel
+  have h2 : (B "v1.0.0").length = 6 := by decide +kernel
+  have hlong : (zipPrefix (B "example.com/m") (B "v1.0.0") ++ List.replicate 65515 (97 : UInt8)).length > 65535 := by
+    simp only [zipPrefix, List.length_append, List.length_replicate, h1, h2, List.length_cons, List.length_nil]
+    decide
+  obtain ⟨a1, _, a3, a4⟩ := Proofs.ZipA.create_nameTooLong exEnv (B "example.com/m") (B "v1.0.0")
+    (List.replicate 65515 97) [120] rfl hns hlen hv hcfp (by unfold MaxZipFile; simp) hlong
+  exact ⟨rfl, a3, a1, a4⟩
+
+/-! ### non-vacuity of the composition theorems -/
+
+/-- an environment whose `CheckFilePath` rejects empty, `.` and `..` elements -/
+def exEnvSound : Env :=
+  { cfp := fun p => !p.isEmpty && (splitOn 47 p).all (fun c => c != [] && c != [46] && c != [46, 46]),
+    toFold := lowerAscii, modOK := fun _ _ => true }
+
+theorem exEnvSound_cfpSound : CfpSound exEnvSound.cfp := by
+  intro p hp c hc
+  simp only [exEnvSound, Bool.and_eq_true, List.all_eq_true] at hp
+  have := hp.2 c hc
+  simp at this
+  exact ⟨this.1.1, this.1.2, this.2⟩
+
+/-- the hypotheses of `create_checkZip` / `create_unzip` hold on the example, and the conclusion is what
+    evaluation gives: two files, created below the clean target `t` -/
+example : ∃ es, create exEnvSound (B "m") (B "v1") exFiles = .ok es ∧
+    (unzip exEnvSound (B "t") .missing (B "m") (B "v1") 100 es).err = none ∧
+    createdFiles (unzip exEnvSound (B "t") .missing (B "m") (B "v1") 100 es).effects = [B "t/go.mod", B "t/a/b.go"] := by
+  have hc : (create exEnvSound (B "m") (B "v1") exFiles).toOption =
+      some [⟨B "m@v1/go.mod", 2, B "hi"⟩, ⟨B "m@v1/a/b.go", 1, B "x"⟩] := by decide +kernel
+  cases hcr : create exEnvSound (B "m") (B "v1") exFiles with
+  | error e => rw [hcr] at hc; cases hc
+  | ok es =>
+    rw [hcr] at hc
+    have hes : es = [⟨B "m@v1/go.mod", 2, B "hi"⟩, ⟨B "m@v1/a/b.go", 1, B "x"⟩] := by
+      simpa [Except.toOption] using hc
+    obtain ⟨u1, _, u3, _⟩ := create_unzip exEnvSound exEnvSound_cfpSound (B "t") (Or.inr (Or.inl (by decide +kernel)))
+      .missing (Or.inl rfl) (B "m") (B "v1") exFiles es 100 hcr (by decide)
+    refine ⟨es, rfl, u1, ?_⟩
+    rw [u3, hes]
+    decide +kernel
 
 end ModVerif.Props.C05
